@@ -47,7 +47,7 @@ def strategy(tier, phase):
 
     from vlib import protogen
 
-    return st.fixed_dictionaries({"gen": st.sampled_from([2, 3, 3]), "tape": protogen.tape_strategy(400 if tier == "quick" else 900), "entry": st.integers(0, 3),
+    return st.fixed_dictionaries({"gen": st.sampled_from([2, 3, 4, 4]), "ctx": st.integers(0, 7), "tape": protogen.tape_strategy(400 if tier == "quick" else 900), "entry": st.integers(0, 3),
                                   "irv": st.sampled_from([0, 0, 10, 11, 13, 3, 8, 9])})
 
 
@@ -69,12 +69,61 @@ def _corpus_files():
     return root, out
 
 
-def _roundtrip_model(mp, entry, features):
+def _probe(model):
+    """Read-only queries between deserialization and serialization: none of them may change what is serialized."""
+    graphs = [model.graph] + [f.graph for f in model.functions.values()]
+    seen = set()
+    while graphs:
+        g = graphs.pop()
+        if id(g) in seen:
+            continue
+        seen.add(id(g))
+        values = list(g.inputs) + list(g.initializers.values()) + list(g.outputs)
+        for n in g:
+            values += [v for v in n.outputs]
+            for a in n.attributes.values():
+                if not a.is_ref() and a.type.name == "GRAPH":
+                    graphs.append(a.as_graph())
+                elif not a.is_ref() and a.type.name == "GRAPHS":
+                    graphs.extend(a.as_graphs())
+            for q in (lambda: str(n), lambda: n.op_identifier(), lambda: n.predecessors(), lambda: n.successors()):
+                try:
+                    q()
+                except Exception:
+                    pass
+        for v in values:
+            sh = v.shape
+            for q in (lambda: repr(v), lambda: v.uses(), lambda: v.consumers(), lambda: v.dtype, lambda: v.type,
+                      lambda: sh.free_symbols(), lambda: sh.is_static(), lambda: sh.has_unknown_dim(), lambda: sh.evaluate({}),
+                      lambda: sh.simplify(), lambda: str(sh), lambda: [d.free_symbols() for d in sh if hasattr(d, "free_symbols")],
+                      lambda: sh.numpy(), lambda: v.is_graph_output(), lambda: v.is_initializer(), lambda: hash(sh)):
+                try:
+                    q()
+                except Exception:  # what a query answers or rejects is not this property's matter
+                    pass
+    try:
+        str(model)
+    except Exception:
+        pass
+
+
+def _roundtrip_model(mp, entry, features, ctx=0):
+    import contextlib
+
     import onnx
 
     import onnx_ir as ir
     from onnx_ir import serde
 
+    if entry in (0, 1) and ctx >= 5:
+        # 5: inside an active Journal; 6: read-only queries between the two halves; 7: both
+        from onnx_ir.journaling import Journal
+
+        with (Journal() if ctx in (5, 7) else contextlib.nullcontext()):
+            m = serde.deserialize_model(mp) if entry == 1 else ir.from_proto(mp)
+            if ctx in (6, 7):
+                _probe(m)
+            return serde.serialize_model(m) if entry == 1 else ir.to_proto(m)
     if entry == 1:
         return serde.serialize_model(serde.deserialize_model(mp))
     if entry == 2 and "external_tensor" not in features:
@@ -210,6 +259,7 @@ def execute(case):
     from vlib import protogen
 
     fails = []
+    ctx_class = None
     if "corpus" in case:
         import onnx
 
@@ -229,7 +279,11 @@ def execute(case):
         if entry == 3:
             _sub_messages(mp, fails)
         else:
-            back = _roundtrip_model(mp, entry, features)
+            ctx = case.get("ctx", 0)
+            back = _roundtrip_model(mp, entry, features, ctx)
+            if entry in (0, 1) and ctx >= 5:
+                label += ["/in-journal", "/queried", "/in-journal+queried"][ctx - 5]
+                ctx_class = ["inside_active_journal", "read_only_queries_between", "inside_active_journal+queries"][ctx - 5]
             _compare(mp, back, label, fails)
     except Exception as e:
         import traceback
@@ -246,7 +300,7 @@ def execute(case):
             seen.add(b)
             out.append((b, m))
     classes = sorted(features & (RARE | {"nested_graph", "function", "external_tensor", "unsorted_nodes", "sparse_tensor_type",
-                                       "sequence_type", "optional_type", "string_tensor", "initializer_for_input"})) + [f"ir{mp.ir_version}" if "corpus" not in case else "corpus"]
+                                       "sequence_type", "optional_type", "string_tensor", "initializer_for_input"})) + [f"ir{mp.ir_version}" if "corpus" not in case else "corpus"] + ([ctx_class] if ctx_class else [])
     return dict(failures=out, nontrivial=nontrivial, classes=classes)
 
 
